@@ -375,6 +375,8 @@ class Elem:
                 return sp.Integer(1)
             if short in ("zeros", "zeros_like"):
                 return sp.Integer(0)
+            if short in ("full", "full_like") and len(e.args) >= 2:
+                return self.expr(e.args[1])  # every element is the fill value
             if short in ("empty", "empty_like"):
                 return sp.Symbol("UNINIT")
             if short == "broadcast_arrays":
